@@ -48,6 +48,15 @@ pub open spec fn unbonding_entry(d: Addr, v: Seq<char>, amount: Uint128, now: Ti
 //@   ensures [C16.sudo.swf,C14,C15] r is Ok ==> swf(sw(final(storage).view()))
 //@   begin proof { lemma_splice_same(storage.view(), lp(ns_staking())); }
 //@ end
+//@ fn src/staking.rs :: Module for StakeKeeper :: query
+//@   ret r
+//@   slice_match request keep Delegation
+//@   requires [C16.query.pre_kind] request is Delegation
+//@   requires [C16.query.pre_swf] swf(sw(storage.view()))
+//@   requires [C15.query.pre_time] match request { StakingQuery::Delegation { delegator, validator } => (get_vinfo(sw(storage.view()), validator@) matches Ok(Some(i)) ==> i.last_rewards_calculation.nanos <= block.time.nanos), _ => true }
+//@   after "let delegator = api.addr_validate(&delegator)?;" proof { assert(vobj_ok_at(sw(storage.view()), validator@)); }
+//@   ensures [C16.query.delegation,C14,C15] match request { StakingQuery::Delegation { delegator, validator } => (r matches Ok(b) ==> exists|resp: DelegationResponse| b == spec_json(resp) && delegation_shown(sw(storage.view()), *block, delegator@, validator@, resp)), _ => true }
+//@ end
 //@ fn src/staking.rs :: Module for StakeKeeper :: execute
 //@   ret r
 //@   requires [C14.exec.pre_swf] swf(sw(old(storage).view()))
@@ -66,6 +75,29 @@ pub open spec fn unbonding_entry(d: Addr, v: Seq<char>, amount: Uint128, now: Ti
 //@   before "re:^\\s*router\\.execute\\(\\s*$@@0" let ghost s_mid = storage.view(); let ghost to0 = self.module_addr.s@; proof { assert(s_mid == splice(s0, lp(ns_staking()), w1)); }
 //@   before "re:^\\s*Ok\\(AppResponse \\{\\s*$@@0" proof { let sm = choose|sm: St| upd_post(sw(s0), sm, validator@, block.time) && swf(sm) && stake_changed(sm, w1, sender0, validator@, amount0.amount.u as nat, false); assert(amount0.amount.u > 0); assert(amount0.denom@ == sinfo_denom(sw(s0))); assert(upd_post(sw(s0), sm, validator@, block.time) && swf(sm) && stake_changed(sm, w1, sender0, validator@, amount0.amount.u as nat, false)); assert(swf(w1)); let mid = splice(s0, lp(ns_staking()), w1); let pr = router.exec_sem(mid, *block, sender0, send_msg::<ExecC>(self.module_addr.s@, seq![amount0])); assert(exists|m: CosmosMsg<ExecC>| router.exec_sem(s_mid, *block, sender0, m).0 is Ok && (m matches CosmosMsg::Bank(BankMsg::Send{to_address, amount}) && to_address@ == to0 && amount@ == seq![amount0] && router.exec_sem(s_mid, *block, sender0, m).1 == storage.view())); assert(pr.0 is Ok); assert(storage.view() == pr.1); assert(delegated(router, *self, s0, storage.view(), *block, sender0, validator@, amount0)); }
 //@ end
+}
+
+// what StakingQuery::Delegation shows for (delegator text d, validator v) on the staking window w at `block`
+pub open spec fn delegation_shown(w: St, block: BlockInfo, d: Seq<char>, v: Seq<char>, resp: DelegationResponse) -> bool {
+    exists|a: Addr| a.s@ == d && ({
+        &&& get_vobj(w, v) matches Ok(Some(vo))
+        &&& get_vinfo(w, v) matches Ok(Some(i))
+        &&& get_shares(w, a, v) matches Ok(o)
+        &&& ({
+            let sh = match o { Some(x) => x, None => Shares { stake: Decimal { atomics: 0 }, rewards: Decimal { atomics: 0 } } };
+            let whole = sh.stake.atomics / 1_000_000_000_000_000_000;
+            if whole == 0 { resp.delegation is None } else {
+                &&& resp.delegation matches Some(fd)
+                &&& fd.delegator == a && fd.validator@ == v
+                // the delegation is shown rounded DOWN to whole tokens, in the bonded denomination
+                &&& fd.amount.amount.u == whole && fd.amount.denom@ == sinfo_denom(w) && fd.can_redelegate == fd.amount
+                &&& (pending_fits(sh, i, sinfo_apr(w), vo.commission.atomics as nat, block.time) ==> ({
+                        let p = pending_spec(sh, i, sinfo_apr(w), vo.commission.atomics as nat, block.time);
+                        if p == 0 { fd.accumulated_rewards@.len() == 0 } else { fd.accumulated_rewards@.len() == 1 && fd.accumulated_rewards@[0].amount.u == p && fd.accumulated_rewards@[0].denom@ == sinfo_denom(w) }
+                    }))
+            }
+        })
+    })
 }
 
 // Delegate: rewards brought up to date, the delegator's stake at the validator raised by exactly `amount`, and exactly
